@@ -160,6 +160,15 @@ class FigureOnly(Contract):
             return
         NF = v["NF"]
 
+        def before(I, st):
+            # the prolog `parts` starts with: document start, font table, colour table, "\n", page header, page footer, page settings - each once
+            lst = st.obj(st.env["parts"])
+            items = [norm_str(x) for x in (lst.items or [])]
+            tags = [x.strip("\x01") if isinstance(x, str) and x.startswith("\x01") else ("NL" if x == "\n" else "OTHER") for x in items]
+            I.oblige(st, "C01.prolog_parts_in_fixed_order(document_start,fonts,colours,page_header,page_footer,page_settings)",
+                     z3.BoolVal(tags == ["START", "FONTS", "COLORS", "NL", "PAGEHEADER", "PAGEFOOTER", "PAGESETTINGS"]), "post", None)
+            I.oblige(st, "C06.page_header_and_footer_defined_exactly_once", z3.BoolVal(tags.count("PAGEHEADER") == 1 and tags.count("PAGEFOOTER") == 1), "post", None)
+
         def ghost_iter(I, st, i):
             st.ghost["log"] = ()                 # the appends of THIS iteration
 
@@ -189,7 +198,7 @@ class FigureOnly(Contract):
             cl["C06.source_on_exactly_the_selected_pages"] = Implies(v["src_nonempty"], z3.BoolVal("SOURCE" in tags) == want_src)
             return cl
         # every append to `parts` is observed by the handler (the list object itself keeps the prolog), so nothing to havoc
-        self.loops = {0: LoopSpec(inv=inv, ghost_iter=ghost_iter, havoc={"parts": (lambda I, st, name, ref: None)})}
+        self.loops = {0: LoopSpec(inv=inv, before=before, ghost_iter=ghost_iter, havoc={"parts": (lambda I, st, name, ref: None)})}
 
     def ensures(self, c, out):
         if c.variant == "no_figures":
